@@ -39,6 +39,7 @@ type Prog struct {
 	lockAn      *lockAnalysis
 	fieldStores map[*types.Var][]ssa.Instruction
 	storesSeen  map[*ssa.Function]bool
+	depSyn      map[string]*packages.Package
 }
 
 func repoDir() string {
